@@ -40,7 +40,7 @@ pub struct FilterCase {
     pub rules: Vec<(String, Vec<Option<String>>)>,
 }
 
-fn case_strategy(filter: impl Strategy<Value = u8>) -> impl Strategy<Value = FilterCase> {
+pub fn case_strategy(filter: impl Strategy<Value = u8>) -> impl Strategy<Value = FilterCase> {
     (
         proptest::collection::vec(any::<u16>(), 1..=20),
         proptest::collection::vec(0u8..3, 20),
@@ -233,7 +233,7 @@ jamo, prepend/spacing marks and the six character types: after-state equals an i
 reference rule applied to the before-state (every other boundary/tag unchanged), text/types/ \
 n_tags/scores untouched, f(f(s)) = f(s). Non-trivial = the filter changes >= 1 boundary/tag and \
 leaves >= 1 eligible-looking one untouched.";
-    let n = rep.n(12000, 400000);
+    let n = rep.n(100000, 1000000);
     rep.run_prop("type-filter", rule, n, || case_strategy(0u8..6), test_case);
     rep.run_prop("linebreak-filter", rule, n, || case_strategy(Just(6u8)), test_case);
     rep.run_prop("grapheme-filter", rule, n, || case_strategy(Just(7u8)), test_case);
